@@ -59,9 +59,15 @@ claim("C23", "proof",
       "FIFO delivery (srm_fifo), no lost wake-up (srm_wake), release exactly on the last reference (srm_release_last, srm_second_release_noop, with the caveat theorem "
       "double_release_after_reuse), shutdown wakes consumers (srm_shutdown; negative: shutdown_misses_producers), and circbuf_refines_list for the array ring buffer. "
       "Tie: generated operation sequences (state-aware, plus malformed stream) run against the REAL EbSystemResourceManager.c in-process and the Lean model line by "
-      "line, with shrinking; plus a real multi-threaded producer/consumer stress whose outcome is checked by the property oracle.",
-      AX + "; hand-written model tied by correspondence on sampled op sequences; pthread mutex/semaphore primitives assumed atomic and sequentially consistent; "
-      "fair wake-up not assumed; callers must satisfy WellUsed (no stale release after re-hand-out).",
+      "line, with shrinking; the model's step granularity is justified by the atomicity obligation srm_steps_atomic / srm_steps_shape / srm_access_inside_section "
+      "over a lock/access table regenerated from the C source on every run (11 functions, 34 paths, ~4000 events: every access to live_count, release_enable, "
+      "fifo and ring-buffer state happens inside the critical section of the mutex that the hand-written protection map assigns to it, and each path's critical "
+      "sections are exactly the model's steps); plus real multi-threaded stress: producer/consumer, and races of every conflicting operation pair on one wrapper "
+      "(free-running and under the seeded perturbation hook) with exact end-state oracles.",
+      AX + "; hand-written model tied by correspondence on sampled op sequences; xlate/srmlocks.py translator (refuses unknown shapes); protection map and the "
+      "one-entry allow-list (stores in svt_get_empty_object on a wrapper the thread has just unlinked) are hand-written and reviewed; pthread mutex/semaphore "
+      "primitives assumed atomic and sequentially consistent; nested fifo sections inside a queue section argued by commutation, not mechanised; fair wake-up not "
+      "assumed; callers must satisfy WellUsed (no stale release after re-hand-out).",
       "Lean 4 proof (invariant by induction over all interleavings) + differential correspondence with the real SRM",
       "lean-correspondence")
 
@@ -153,7 +159,34 @@ claim("C26", "proof",
       "Lean 4 proof over a hand-written model + differential correspondence (extracted real function text) + real-encoder oracle against the real decoder",
       "lean-correspondence")
 
+claim("C03", "proof",
+      "The tail of packetization_kernel (reorder queue mod 2048, temporal-unit count, encode_tu, undisplayed-frame stack, EOS movement, release) and the "
+      "pre-assignment buffer of picture_decision_kernel (release rule, delayed-intra hand-over, is_delayed_intra) are modelled in Lean. packetize_spec holds for "
+      "all N >= 1, every GOP accepted by the decidable validGop and every arrival order inside the window: exactly N packets, k-th packet = pts of picture k, "
+      "dts = pts, EOS on the last packet only, no slot overwritten; flush_complete / flush_complete_code: no picture is stranded at EOS for any N, levels or intra "
+      "pattern; pts_descend_agrees / pts_descend_truncates delimit when the code's int-truncating sort is the model's sort; app_private_not_roundtripped refutes "
+      "the private-pointer sub-claim (finding F14). Ties: text-extracted real C vs both models at unit level; real encodes (all N up to 3*minigop+2 per level, "
+      "intra period, refresh type, look-ahead, overlays, non-contiguous pts, polling patterns) with the property oracle on the API output under a no-progress "
+      "watchdog; the frame list rebuilt from the real bitstream is checked against validGop and run through the model, packet lists compared field by field.",
+      AX + "; hand-written models tied by correspondence; av1_generate_rps_info, the mini-GOP split and qsort are constrained inputs, not modelled; pipeline "
+      "liveness between picture decision and packetization is exercised, not proved; CQP only; eight recorded findings F14-F21 (the e2e sweep stays inside the "
+      "region where the pinned encoder neither deadlocks nor crashes; fixed probes cover each finding).",
+      "Lean 4 proof over hand-written models + differential correspondence (unit and end to end)",
+      "lean-correspondence")
+
+claim("C19", "proof",
+      "The intra-period automaton of picture_decision_kernel and the AV1 reference-update/output process are modelled in Lean: intra_positions, frame_type_spec, "
+      "intra_only_first and idr_refresh_key hold for all stream lengths (the P = 0 & IDR exception is proved in the negative: finding F12); "
+      "keyframe_random_access holds for any reconstruction function and any prior DPB contents. Ties: the verbatim-extracted picture-decision code vs the automaton "
+      "(P from -1 to 2^31-1, all refresh types and rate-control modes); frame types parsed from real packets by the Lean OBU parser vs the automaton and the property "
+      "over P x refresh x levels; headers run through the DPB model and matched to real decoder output and encoder recon; every sampled shown key frame is "
+      "suffix-decoded by the real decoder and byte-compared with the tail of the full decode.",
+      AX + "; the picture_type choice (EbPictureDecisionProcess.c:4899-4938) is tied end to end only; random access is claimed for shown KEY frames; the only "
+      "decoder available is SVT's own; CQP end to end; one recorded finding (F12); sweep restricted to the live region defined by the C03 findings.",
+      "Lean 4 proof over hand-written models + differential correspondence",
+      "lean-correspondence")
+
 _PENDING = ("check under construction (model planned in DESIGN.md section 5); not claimed until its theorem and correspondence run exist "
             "and pass on the unchanged tree")
-for _p in ["C01", "C03", "C04", "C05", "C06", "C07", "C08", "C09", "C10", "C11", "C15", "C16", "C17", "C19", "C20", "C27"]:
+for _p in ["C01", "C04", "C05", "C06", "C07", "C08", "C09", "C10", "C11", "C15", "C16", "C17", "C20", "C27"]:
     NOT_CLAIMED[_p] = _PENDING
